@@ -57,7 +57,7 @@ T_Piece ==
   /\ IF ~(pc = "split" /\ sk <= Len(pts)) THEN Reject("no split point left: the code splits where the specification does not")
      ELSE LET bo == BOff(s) idx == pts[sk] IN
           /\ SplitStep
-          /\ IF e.prev = bo[prev] /\ e.idx = bo[idx] /\ (e.nh = 1) = (s[idx - 1] # HY) THEN Count ELSE Mismatch("piece boundaries / need_hyphen differ")
+          /\ IF e.prev = bo[prev] /\ e.idx = bo[idx] /\ (e.nh = 1) = (idx = 1 \/ s[idx - 1] # HY) THEN Count ELSE Mismatch("piece boundaries / need_hyphen differ")
 T_Last ==
   /\ IsEv("p.last") /\ pc # "rejected" /\ ~SilentEnabled /\ Bump
   /\ IF ~(pc = "split" /\ sk > Len(pts) /\ HasLast) THEN Reject("last piece where the specification has none (or split points left)")
